@@ -602,6 +602,10 @@ func CheckMain(id, tier string, self string) int {
 			names = append(names, m)
 		}
 		sort.Strings(names)
+		if k == "states" {
+			cov["states"] = len(names) // distinct canonical state keys of an explicit-state search
+			continue
+		}
 		cov["distinct_"+k] = len(names)
 		if len(names) <= 80 {
 			cov[k] = names
